@@ -255,7 +255,8 @@ class Session:
             self.p.stdin.flush()
         except BrokenPipeError:
             return ["DEAD"]
-        out, buf, deadline = [], b"", time.time() + timeout
+        out, buf, deadline = [], getattr(self, "_buf", b""), time.time() + timeout
+        self._buf = b""
         fd = self.p.stdout.fileno()
         while True:
             if time.time() > deadline:
@@ -273,6 +274,7 @@ class Session:
                 l, buf = buf.split(b"\n", 1)
                 l = l.decode("utf-8", "replace")
                 if l == mark:
+                    self._buf = buf
                     return out
                 out.append(l)
 
@@ -282,3 +284,37 @@ class Session:
             self.p.wait(timeout=10)
         except Exception:
             self.p.kill()
+
+
+def session_send(sess, line):
+    """send a raw line to a Session without waiting"""
+    sess.p.stdin.write((line + "\n").encode())
+    sess.p.stdin.flush()
+
+
+def session_read_until(sess, pred, timeout=60):
+    """read output lines of a Session until pred(line); returns the lines (incl. the matching one) or ends with TIMEOUT/DEAD"""
+    import select
+    out, deadline = [], time.time() + timeout
+    fd = sess.p.stdout.fileno()
+    buf = getattr(sess, "_buf", b"")
+    while True:
+        while b"\n" in buf:
+            l, buf = buf.split(b"\n", 1)
+            l = l.decode("utf-8", "replace")
+            out.append(l)
+            if pred(l):
+                sess._buf = buf
+                return out
+        if time.time() > deadline:
+            sess._buf = buf
+            return out + ["TIMEOUT"]
+        r, _, _ = select.select([fd], [], [], 1.0)
+        if not r:
+            if sess.p.poll() is not None:
+                return out + ["DEAD"]
+            continue
+        chunk = os.read(fd, 1 << 16)
+        if not chunk:
+            return out + ["DEAD"]
+        buf += chunk
